@@ -79,8 +79,9 @@ class Terminal::Impl {
     void printPrompt(SessionContext *s);
     void printHelp(SessionContext *s);
 
-    bool execute(SessionContext *s);
-    bool executeCmd(SessionContext *s, const std::string &cmdline);
+    //! is_history_rerun: the line being executed was put in by '!n' / '!!'
+    bool execute(SessionContext *s, bool is_history_rerun = false);
+    bool executeCmd(SessionContext *s, const std::string &cmdline, bool is_history_rerun);
 
     void executeCdCmd(SessionContext *s, const Args &args);
     void executeHelpCmd(SessionContext *s, const Args &args);
@@ -89,7 +90,7 @@ class Terminal::Impl {
     void executeExitCmd(SessionContext *s, const Args &args);
     void executeTreeCmd(SessionContext *s, const Args &args);
     void executePwdCmd(SessionContext *s, const Args &args);
-    bool executeRunHistoryCmd(SessionContext *s, const Args &args);
+    bool executeRunHistoryCmd(SessionContext *s, const Args &args, bool is_history_rerun);
     void executeUserCmd(SessionContext *s, const Args &args);
 
     bool findNode(const std::string &path, Path &node_path) const;
